@@ -19,7 +19,7 @@ theorem renameStep_moves (sv : Server) (d n n' : String) (dt : Bool)
     ∀ d' m, ¬ (d' = d ∧ (m = n ∨ m = n')) →
       (Catalog.renameStep sv d n n' dt).1.coll d' m = sv.coll d' m := by
   have t1 : ∀ d' m, (sv.setColl d n (sv.coll d n)).coll d' m = sv.coll d' m := coll_touch sv d n
-  simp only [Catalog.renameStep, hv, Bool.not_true, Bool.false_eq_true, if_false]
+  simp only [Catalog.renameStep, hv, hne, Bool.not_true, Bool.false_eq_true, if_false]
   generalize hs1 : sv.setColl d n (sv.coll d n) = s1 at t1 ⊢
   have t2 : ∀ d' m, (s1.setColl d n' (s1.coll d n')).coll d' m = sv.coll d' m := by
     intro d' m; rw [coll_touch, t1]
@@ -67,9 +67,18 @@ theorem renameStep_no_source (sv : Server) (d n n' : String) (dt : Bool)
     ∀ d' m, (Catalog.renameStep sv d n n' dt).1.coll d' m = sv.coll d' m := by
   have t1 : ∀ d' m, (sv.setColl d n (sv.coll d n)).coll d' m = sv.coll d' m := coll_touch sv d n
   simp only [Catalog.renameStep, hv, Bool.not_true, Bool.false_eq_true, if_false]
+  by_cases hnn : n = n'
+  · simp only [hnn, if_true]; exact ⟨trivial, fun _ _ => trivial⟩
+  simp only [hnn, if_false]
   generalize hs1 : sv.setColl d n (sv.coll d n) = s1 at t1 ⊢
   simp only [t1, hsrc, Bool.not_false, if_true]
   exact ⟨trivial, fun _ _ => trivial⟩
+
+/-- renaming a collection onto its own name is refused - with or without `dropTarget`, whether
+    the collection exists or not - and changes nothing at all -/
+theorem renameStep_self (sv : Server) (d n : String) (dt : Bool) (hv : validName n = true) :
+    Catalog.renameStep sv d n n dt = (sv, .err .opFail) := by
+  simp [Catalog.renameStep, hv]
 
 theorem renameStep_target_exists (sv : Server) (d n n' : String)
     (hv : validName n' = true) (hsrc : (sv.coll d n).isCreated = true)
@@ -78,6 +87,9 @@ theorem renameStep_target_exists (sv : Server) (d n n' : String)
     ∀ d' m, (Catalog.renameStep sv d n n' false).1.coll d' m = sv.coll d' m := by
   have t1 : ∀ d' m, (sv.setColl d n (sv.coll d n)).coll d' m = sv.coll d' m := coll_touch sv d n
   simp only [Catalog.renameStep, hv, Bool.not_true, Bool.false_eq_true, if_false]
+  by_cases hnn : n = n'
+  · simp only [hnn, if_true]; exact ⟨trivial, fun _ _ => trivial⟩
+  simp only [hnn, if_false]
   generalize hs1 : sv.setColl d n (sv.coll d n) = s1 at t1 ⊢
   have t2 : ∀ d' m, (s1.setColl d n' (s1.coll d n')).coll d' m = sv.coll d' m := by
     intro d' m; rw [coll_touch, t1]
@@ -136,6 +148,13 @@ theorem obtainedColl_addCollCache {w : World} {h : CollH} (c : Nat) (d n : Strin
       exact Or.inl (hc.1 ▸ hc.2 ▸ this)
     · exact hob.2
 
+theorem obtainedColl_dropDatabaseStep (σ : Nat → Nat) {w : World} {h : CollH} (c : Nat)
+    (d : String) (hob : obtainedColl w h = true) :
+    obtainedColl (dropDatabaseStep σ w c d).1 h = true := by
+  simp only [dropDatabaseStep]; split
+  · exact obtainedColl_addDbCache c d (by rw [obtainedColl_setStore]; exact hob)
+  · exact hob
+
 theorem obtainedColl_step (σ : Nat → Nat) (w : World) (op : Op) (h : CollH)
     (hob : obtainedColl w h = true) : obtainedColl (Catalog.step σ w op).1 h = true := by
   cases op with
@@ -174,14 +193,11 @@ theorem obtainedColl_step (σ : Nat → Nat) (w : World) (op : Op) (h : CollH)
   | listDatabaseNames c => exact hob
   | dropDatabase c t =>
     cases t with
-    | byName d =>
-      simp only [Catalog.step]; split
-      · exact obtainedColl_addDbCache c d (by rw [obtainedColl_setStore]; exact hob)
-      · exact hob
+    | byName d => simp only [Catalog.step]; exact obtainedColl_dropDatabaseStep σ c d hob
     | byHandle hh =>
       simp only [Catalog.step, unob]; split
       · exact hob
-      · split <;> exact hob
+      · exact obtainedColl_dropDatabaseStep σ c hh.db hob
 
 theorem obtainedColl_run (σ : Nat → Nat) (ops : List Op) (h : CollH) : ∀ (w : World),
     obtainedColl w h = true → obtainedColl (Catalog.run σ w ops).1 h = true := by
@@ -236,10 +252,18 @@ theorem coll_drop_empties (σ : Nat → Nat) (w : World) (h : CollH)
   simp only [store_setStore, if_true, coll_setColl, and_self]
   exact ⟨rfl, rfl⟩
 
-theorem drop_database_empties (σ : Nat → Nat) (w : World) (c : Nat) (d : String) (n : String) :
-    (Catalog.step σ w (.dropDatabase c (.byName d))).2 = .ok ∧
-    ((Catalog.step σ w (.dropDatabase c (.byName d))).1.store (σ c)).coll d n = Coll.empty := by
-  simp only [Catalog.step]
+theorem drop_by_handle_empties (σ : Nat → Nat) (w : World) (hd : DbH) (h' : CollH)
+    (hob : obtainedDb w hd = true) (hob' : obtainedColl w h' = true) :
+    (Catalog.step σ w (.dropCollection hd (.byHandle h'))).2 = .ok ∧
+    ((Catalog.step σ w (.dropCollection hd (.byHandle h'))).1.store (σ hd.client)).coll hd.db h'.coll
+      = Coll.empty := by
+  simp only [Catalog.step, hob, hob', Bool.not_true, Bool.or_self, Bool.false_eq_true, if_false,
+    store_setStore, if_true, coll_setColl, and_self]
+
+theorem dropDatabaseStep_empties (σ : Nat → Nat) (w : World) (c : Nat) (d : String) (n : String) :
+    (dropDatabaseStep σ w c d).2 = .ok ∧
+    ((dropDatabaseStep σ w c d).1.store (σ c)).coll d n = Coll.empty := by
+  simp only [dropDatabaseStep]
   split
   · refine ⟨rfl, ?_⟩
     rw [store_addDbCache, store_setStore]; simp only [if_true]
@@ -260,6 +284,19 @@ theorem drop_database_empties (σ : Nat → Nat) (w : World) (c : Nat) (d : Stri
       cases hg : alGet? n (((w.store (σ c)).touchDb d).db d) with
       | none => rw [hg] at hcc; simp [Coll.empty, Coll.isCreated] at hcc
       | some cc => rw [hg] at hcc; exact ⟨(n, cc), alGet?_mem hg, hcc⟩
+
+theorem drop_database_empties (σ : Nat → Nat) (w : World) (c : Nat) (d : String) (n : String) :
+    (Catalog.step σ w (.dropDatabase c (.byName d))).2 = .ok ∧
+    ((Catalog.step σ w (.dropDatabase c (.byName d))).1.store (σ c)).coll d n = Coll.empty := by
+  simp only [Catalog.step]; exact dropDatabaseStep_empties σ w c d n
+
+theorem drop_database_by_handle_empties (σ : Nat → Nat) (w : World) (c : Nat) (hd : DbH)
+    (n : String) (hob : obtainedDb w hd = true) :
+    (Catalog.step σ w (.dropDatabase c (.byHandle hd))).2 = .ok ∧
+    ((Catalog.step σ w (.dropDatabase c (.byHandle hd))).1.store (σ c)).coll hd.db n
+      = Coll.empty := by
+  simp only [Catalog.step, hob, Bool.not_true, Bool.false_eq_true, if_false]
+  exact dropDatabaseStep_empties σ w c hd.db n
 
 /-! ### handles for the same name, clients on one store -/
 
@@ -283,7 +320,7 @@ theorem shared_clients_agree_listings (σ : Nat → Nat) (w : World) (c c' : Nat
 /-! ### independent clients -/
 
 theorem other_stores_untouched (σ : Nat → Nat) (w : World) (op : Op) (j : Nat)
-    (hf : foreignCollHandle σ op = false) (hj : σ (opClient op) ≠ j) :
+    (hj : σ (opClient op) ≠ j) :
     (Catalog.step σ w op).1.store j = w.store j := by
   have hj' : ¬ j = σ (opClient op) := fun e => hj e.symm
   cases op with
@@ -322,10 +359,9 @@ theorem other_stores_untouched (σ : Nat → Nat) (w : World) (op : Op) (j : Nat
       · rfl
       · rw [store_setStore]; simp only [opClient] at hj'; simp [hj']
     | byHandle h' =>
-      simp only [foreignCollHandle, Bool.not_eq_false', Bool.and_eq_true, beq_iff_eq] at hf
       simp only [Catalog.step, unob]; split
       · rfl
-      · rw [store_setStore]; simp only [opClient] at hj'; rw [hf.1]; simp [hj']
+      · rw [store_setStore]; simp only [opClient] at hj'; simp [hj']
   | renameCollection hh n n' dt =>
     simp only [Catalog.step, unob]; split
     · rfl
@@ -341,26 +377,26 @@ theorem other_stores_untouched (σ : Nat → Nat) (w : World) (op : Op) (j : Nat
   | dropDatabase c t =>
     cases t with
     | byName d =>
-      simp only [Catalog.step]; split
+      simp only [Catalog.step, dropDatabaseStep]; split
       · rw [store_addDbCache, store_setStore]; simp only [opClient] at hj'; simp [hj']
       · rw [store_setStore]; simp only [opClient] at hj'; simp [hj']
     | byHandle hh =>
-      simp only [Catalog.step, unob]; split
+      simp only [Catalog.step, unob, dropDatabaseStep]; split
       · rfl
       · split
-        · rfl
+        · rw [store_addDbCache, store_setStore]; simp only [opClient] at hj'; simp [hj']
         · rw [store_setStore]; simp only [opClient] at hj'; simp [hj']
 
 theorem other_stores_untouched_run (σ : Nat → Nat) (j : Nat) (ops : List Op) : ∀ (w : World),
-    ops.all (fun op => !foreignCollHandle σ op && σ (opClient op) != j) = true →
+    ops.all (fun op => σ (opClient op) != j) = true →
     (Catalog.run σ w ops).1.store j = w.store j := by
   induction ops with
   | nil => intro w _; rfl
   | cons op ops ih =>
     intro w h
-    simp only [List.all_cons, Bool.and_eq_true, Bool.not_eq_true', bne_iff_ne, ne_eq] at h
+    simp only [List.all_cons, Bool.and_eq_true, bne_iff_ne, ne_eq] at h
     simp only [Catalog.run]
-    rw [ih _ (by simpa using h.2), other_stores_untouched σ w op j h.1.1 h.1.2]
+    rw [ih _ (by simpa using h.2), other_stores_untouched σ w op j h.1]
 
 /-! ### index_information -/
 
